@@ -1,6 +1,6 @@
 """Contracts for diameter/node/node.py."""
 from pyvc.spec import REG as R, Raise
-from . import node_model, peer, helpers, c20  # noqa
+from . import node_model, peer, helpers, c20, family  # noqa
 
 CONNECTING, CONNECTED, READY, READY_WAITING_DWA, DISCONNECTING, CLOSING, CLOSED = 0x10, 0x11, 0x12, 0x13, 0x1a, 0x1b, 0x1c
 R_DPR, R_SHUTDOWN, R_CLEAN, R_SOCKFAIL, R_GONE, R_FAILCONN, R_FAILCE, R_CERREJ, R_DWATO, R_UNKNOWN = \
@@ -88,13 +88,13 @@ _REC_TYPEERR = ("mkey(message) in self._origin_waiting_answer and not is_none(pe
 R.contract("Node.send_message", params={"self": "Node", "conn": "PeerConnection", "message": "Message"},
            ghost={"o": "Opt[bytes]"},
            requires=[("flags-octet", "0 <= message.header.command_flags < 256"),
-                     ("window-well-formed", "win_ok(self, o)"),
+                     ("window-well-formed", "implies(not is_req(message), win_ok(self, o))"),
                      ("windows-not-shared",
-                      "implies(mkey(message) in self._origin_waiting_answer and o in self._sent_answers and "
+                      "implies(not is_req(message) and mkey(message) in self._origin_waiting_answer and o in self._sent_answers and "
                       "self._origin_waiting_answer[mkey(message)][0] in self._sent_answers and "
                       "self._origin_waiting_answer[mkey(message)][0] != o, "
                       "self._sent_answers[o] != self._sent_answers[self._origin_waiting_answer[mkey(message)][0]])")],
-           ensures=[("windows-stay-well-formed", "win_ok(self, o)"),
+           ensures=[("windows-stay-well-formed", "implies(old(win_ok(self, o)), win_ok(self, o))"),
                     ("queued-once", "items(out(conn)) == old(items(out(conn))) + [message]"),
                     ("answer-releases-pending-hbh",
                      "implies(not is_req(message), not pwa_has(self, conn.host_identity, message.header.hop_by_hop_identifier))"),
@@ -178,6 +178,8 @@ _WIN_ENS = [("windows-stay-well-formed", "win_ok(self, o)"), ("answered-id-enter
              "ite(o in self._sent_answers, maxlen(self._sent_answers[o]), self.retransmit_queue_size))))")]
 
 R.inline_fn("PeerConnection.reset_last_dwa", "PeerConnection.reset_last_dwr")
+R.contract("Node.auth_application_ids", trusted=True, params={"self": "Node"}, returns="List[int]", allocates=True)
+R.contract("Node.acct_application_ids", trusted=True, params={"self": "Node"}, returns="List[int]", allocates=True)
 R.contract("Node.receive_dwr", params={"self": "Node", "conn": "PeerConnection", "message": "Message"},
            ghost={"o": "Opt[bytes]"}, requires=_NODE_READY + _WIN_REQ,
            ensures=[("one-2001-dwa", "one_answer(conn, message, 2001)"),
@@ -355,3 +357,90 @@ R.contract("Node._receive_message", params={"self": "Node", "conn": "PeerConnect
            props=["C07", "C17", "C14"],
            note="message handler of every connection: raises nothing (C14), at most one answer and only for requests (C07), "
                 "T-flag duplicates rejected without delivery (C17)")
+
+# ---- C11 / C06 timers, C18 senders ---------------------------------------------------------------------------
+R.macro("seq_ok", ["g"], "1 <= g._sequence <= 2**32 - 1")
+R.macro("eff", ["p", "peerval", "nodeval"], "ite(not is_none(p) and not is_none(peerval) and some(peerval) != 0, some(peerval), nodeval)")
+R.inline_fn("PeerConnection.last_read_since", "PeerConnection.dwa_wait_time")
+R.model("PeerConnection", fields={"g_close_calls": "int", "g_close_reason": "int"})
+
+R.contract("Node.close_connection_socket", params={"self": "Node", "conn": "PeerConnection", "disconnect_reason": "int"},
+           trusted=True,
+           ghost_modifies=["conn.g_close_calls", "conn.g_close_reason"],
+           ghost_ensures=["conn.g_close_calls == old(conn.g_close_calls) + 1", "conn.g_close_reason == disconnect_reason"],
+           ensures=[("nothing-sent", "nothing_sent(conn)")],
+           modifies=["*PeerConnection.state", "*Peer.connection", "*Peer.disconnect_reason", "*Peer.last_disconnect",
+                     "dict:self.connections", "dict:self.peer_sockets", "dict:self._peer_waiting_answer", "*Event.flag",
+                     "*StoppableThread.stopped", "*Socket.closed"],
+           note="ASSUMED here (C13 verifies the table effects); the ghost counter records each call and its reason")
+
+_SENDER_REQ = [("generators-in-range", "seq_ok(conn.hop_by_hop_seq) and seq_ok(self.end_to_end_seq) and "
+                                        "conn.hop_by_hop_seq != self.end_to_end_seq"),
+               ("identity-encodable", "encodable(self.origin_host) and encodable(self.realm_name)")]
+for _nm, _cls in (("send_dwr", "DeviceWatchdogRequest"), ("send_dpr", "DisconnectPeerRequest"), ("send_cer", "CapabilitiesExchangeRequest")):
+    _extra = []
+    _mods = ["conn.hop_by_hop_seq._sequence", "self.end_to_end_seq._sequence"]
+    if _nm == "send_dwr":
+        _extra = [("awaiting-dwa", "conn.state == ite(old(conn.state) == %d or old(conn.state) == %d, %d, old(conn.state))" % (READY, READY_WAITING_DWA, READY_WAITING_DWA)),
+                  ("dwr-timestamp", "conn._last_dwr >= int(old(clock()))"),
+                  ("origin-state-id", "new_out(conn).origin_state_id == self.state_id")]
+        _mods += ["conn.state", "conn._last_dwr"]
+    if _nm == "send_dpr":
+        _extra = [("disconnecting", "conn.state == %d" % DISCONNECTING), ("cause-rebooting", "new_out(conn).disconnect_cause == 0")]
+        _mods += ["conn.state"]
+    R.contract(f"Node.{_nm}", params={"self": "Node", "conn": "PeerConnection"},
+               requires=_SENDER_REQ,
+               ensures=[("one-request-queued", "len(out(conn)) == old(len(out(conn))) + 1 and "
+                                               "items(out(conn))[0:old(len(out(conn)))] == old(items(out(conn)))"),
+                        ("is-the-request", "is_req(new_out(conn)) and type_is(new_out(conn), %s)" % _cls),
+                        ("ids-fresh-and-nonzero", "new_out(conn).header.hop_by_hop_identifier == succ32(old(conn.hop_by_hop_seq._sequence)) "
+                                                  "and new_out(conn).header.hop_by_hop_identifier != 0 and "
+                                                  "new_out(conn).header.end_to_end_identifier == succ32(old(self.end_to_end_seq._sequence))"),
+                        ("generators-stay-in-range", "seq_ok(conn.hop_by_hop_seq) and seq_ok(self.end_to_end_seq)")] + _extra,
+               ghost_modifies=["conn._write_msg_queue.g_put"], modifies=_mods, props=["C11", "C16", "C18", "C06"])
+
+R.macro("now0", [], "int(old(clock()))")
+R.macro("now1", [], "int(clock())")
+R.macro("T_idle", ["n", "c"], "eff(peer_of(n, c), some(peer_of(n, c)).idle_timeout, n.idle_timeout)")
+R.macro("T_dwa", ["n", "c"], "eff(peer_of(n, c), some(peer_of(n, c)).dwa_timeout, n.dwa_timeout)")
+R.macro("T_cea", ["n", "c"], "eff(peer_of(n, c), some(peer_of(n, c)).cea_timeout, n.cea_timeout)")
+R.macro("T_cer", ["n", "c"], "eff(peer_of(n, c), some(peer_of(n, c)).cer_timeout, n.cer_timeout)")
+R.macro("untouched", ["c"], "nothing_sent(c) and c.state == old(c.state) and c._last_dwr == old(c._last_dwr) and "
+                            "c.g_close_calls == old(c.g_close_calls)")
+R.macro("closed_with", ["c", "r"], "c.g_close_calls == old(c.g_close_calls) + 1 and c.g_close_reason == r and nothing_sent(c)")
+R.contract("Node._check_timers", params={"self": "Node", "conn": "PeerConnection"},
+           requires=_SENDER_REQ + [("dwr-timer-consistent", "implies(conn.state == %d, conn._last_dwr > 0)" % READY_WAITING_DWA),
+                                   ("clock-sane", "conn._last_read >= 0 and conn._last_dwr >= 0")],
+           ensures=[
+               ("quiet-while-stopping", "implies(old(self._stopping), untouched(conn))"),
+               ("idle-sends-exactly-one-dwr",
+                "implies(not old(self._stopping) and old(conn.state) == %d and now0() - old(conn._last_read) > old(T_idle(self, conn)), "
+                "len(out(conn)) == old(len(out(conn))) + 1 and type_is(new_out(conn), DeviceWatchdogRequest) and "
+                "is_req(new_out(conn)) and conn.state == %d and conn._last_dwr >= now0() and "
+                "conn.g_close_calls == old(conn.g_close_calls))" % (READY, READY_WAITING_DWA)),
+               ("no-dwr-while-traffic-arrives",
+                "implies(old(conn.state) == %d and now1() - old(conn._last_read) <= old(T_idle(self, conn)), untouched(conn))" % READY),
+               ("dwa-timeout-closes",
+                "implies(not old(self._stopping) and old(conn.state) == %d and now0() - old(conn._last_dwr) > old(T_dwa(self, conn)), "
+                "closed_with(conn, %d))" % (READY_WAITING_DWA, R_DWATO)),
+               ("waiting-for-dwa-sends-nothing-more",
+                "implies(old(conn.state) == %d, nothing_sent(conn) and "
+                "implies(now1() - old(conn._last_dwr) <= old(T_dwa(self, conn)), untouched(conn)))" % READY_WAITING_DWA),
+               ("ce-timeout-closes",
+                "implies(not old(self._stopping) and old(conn.state) == %d and "
+                "now0() - old(conn._last_read) > ite(old(conn._direction) == 2, old(T_cea(self, conn)), old(T_cer(self, conn))) and "
+                "(old(conn._direction) == 1 or old(conn._direction) == 2), closed_with(conn, %d))" % (CONNECTED, R_FAILCE)),
+               ("ce-within-timeout-untouched",
+                "implies(old(conn.state) == %d and "
+                "now1() - old(conn._last_read) <= ite(old(conn._direction) == 2, old(T_cea(self, conn)), old(T_cer(self, conn))), "
+                "untouched(conn))" % CONNECTED),
+               ("other-states-untouched",
+                "implies(old(conn.state) != %d and old(conn.state) != %d and old(conn.state) != %d, untouched(conn))"
+                % (CONNECTED, READY, READY_WAITING_DWA))],
+           ghost_modifies=["conn._write_msg_queue.g_put", "conn.g_close_calls", "conn.g_close_reason"],
+           modifies=["conn.hop_by_hop_seq._sequence", "self.end_to_end_seq._sequence", "conn.state", "conn._last_dwr",
+                     "*PeerConnection.state", "*Peer.connection", "*Peer.disconnect_reason", "*Peer.last_disconnect",
+                     "dict:self.connections", "dict:self.peer_sockets", "dict:self._peer_waiting_answer", "*Event.flag",
+                     "*StoppableThread.stopped", "*Socket.closed"],
+           props=["C11", "C06", "C18"],
+           note="total decision function over (stopping, state, virtual clock readings, node and per-peer timers)")
